@@ -3,6 +3,8 @@ package harness
 import (
 	"fmt"
 	"net/http"
+	"net/url"
+	"strconv"
 	"strings"
 	"testing"
 
@@ -26,7 +28,8 @@ var c18CfgKinds = []string{"allow-all", "discrete", "discrete-credentialed", "st
 
 var c18Shapes = []string{"actual-get-allowed", "actual-get-disallowed", "actual-options", "non-cors-get", "preflight-ok", "preflight-bad-origin", "preflight-acrpn", "preflight-bad-method", "preflight-bad-headers"}
 
-var c18Fields = []string{"origin-length", "origin-labels", "origin-punycode-labels", "origin-values", "acrm-length", "acrh-line-length", "acrh-junk-length", "acrh-elements", "acrh-empty-elements", "acrh-lines", "acrh-ows", "acrpn-values", "acrpn-length", "other-header-values"}
+var c18Fields = []string{"origin-length", "origin-labels", "origin-punycode-labels", "origin-values", "acrm-length", "acrh-line-length", "acrh-junk-length", "acrh-elements", "acrh-empty-elements", "acrh-lines", "acrh-ows", "acrpn-values", "acrpn-length", "other-header-values",
+	"acrm-values", "other-header-count", "target-length", "method-length", "host-length"}
 
 type C18Case struct {
 	CfgKind string `json:"config_kind"`
@@ -69,8 +72,10 @@ var c18Counts = []int{1, 100, 10_000, 100_000}
 
 func c18Scales(field string) []int {
 	switch field {
-	case "origin-values", "acrh-elements", "acrh-empty-elements", "acrh-lines", "acrpn-values", "other-header-values":
+	case "origin-values", "acrh-elements", "acrh-empty-elements", "acrh-lines", "acrpn-values", "other-header-values", "acrm-values":
 		return c18Counts
+	case "other-header-count":
+		return []int{1, 100, 1000, 20_000}
 	case "origin-labels":
 		return []int{1, 10, 100, 100_000} // 100 labels still fit the 253-byte host limit; 100 000 do not
 	case "origin-punycode-labels":
@@ -181,8 +186,37 @@ func c18Request(shape, field, fl string, n int) *http.Request {
 		h["Accept-Encoding"] = vs
 	case "acrh-ows":
 		h[hACRH] = []string{flavour("x-bar,", fl) + strings.Repeat(" ", n) + flavour("x-foo", fl)}
+	case "acrm-values":
+		// many Access-Control-Request-Method field lines (only the first one counts)
+		first := "GET"
+		if vs := h[hACRM]; len(vs) > 0 {
+			first = vs[0]
+		}
+		vs := make([]string, n)
+		for i := range vs {
+			vs[i] = flavour("PUT", fl)
+		}
+		vs[0] = first
+		h[hACRM] = vs
+	case "other-header-count":
+		// many distinct header names the middleware has no business reading
+		for i := 0; i < n; i++ {
+			h["X-Unrelated-"+strconv.Itoa(i)] = []string{flavour("v", fl)}
+		}
 	}
-	return &http.Request{Method: method, URL: rootURL, Header: h, Proto: "HTTP/1.1", ProtoMajor: 1, ProtoMinor: 1, Host: "server.example"}
+	req := &http.Request{Method: method, URL: rootURL, RequestURI: "/", Header: h, Proto: "HTTP/1.1", ProtoMajor: 1, ProtoMinor: 1, Host: "server.example"}
+	switch field {
+	case "target-length":
+		path := "/" + flavour(strings.Repeat("p", n), fl)
+		req.URL, req.RequestURI = &url.URL{Path: path}, path
+	case "method-length":
+		if method != "OPTIONS" {
+			req.Method = flavour(strings.Repeat("G", n), fl) // a long non-OPTIONS method
+		}
+	case "host-length":
+		req.Host = flavour(strings.Repeat("h", n), fl) + ".example"
+	}
+	return req
 }
 
 type allocRec struct {
@@ -242,7 +276,7 @@ func c18Check(c C18Case, rec *Recorder) *Disc {
 func TestC18(t *testing.T) {
 	Prop[C18Case]{ID: "C18", Gen: c18Gen, Check: c18Check,
 		Rule: "generator: configuration kind in {allow-all, discrete, discrete+credentialed+PNA, * headers anonymous with/without Authorization, * headers credentialed, no headers configured, no-cors-only PNA} x debug x request shape in {actual allowed/disallowed, actual OPTIONS, non-CORS, preflight succeeding / failing at origin, ACRPN, method, headers} " +
-			"x scaled field in {Origin length, Origin label count, Origin Punycode-label count, Origin value count, ACRM length, ACRH line length (valid names), ACRH junk length, ACRH element count, ACRH empty-element count, ACRH line count, OWS run, ACRPN value count, ACRPN length, value count of an unrelated header} x content flavour in {lower case, Mixed-Case, UPPER CASE, OWS-padded} x 4 scales (1 B..1 MiB or 1..100 000 elements). " +
+			"x scaled field in {Origin length, Origin label count, Origin Punycode-label count, Origin value count, ACRM length, ACRH line length (valid names), ACRH junk length, ACRH element count, ACRH empty-element count, ACRH line count, OWS run, ACRPN value count, ACRPN length, value count of an unrelated header, ACRM value count, number of distinct unrelated headers (to 20 000), request-target length, method length, Host length} x content flavour in {lower case, Mixed-Case, UPPER CASE, OWS-padded} x 4 scales (1 B..1 MiB or 1..100 000 elements). " +
 			"Oracle: testing.AllocsPerRun (10 runs, GOMAXPROCS 1, reused request, reused and cleared header map, no-op handler, race detector off) <= 8 at every scale and not larger at the largest scale than at the smallest. " +
 			"evaluations = measured cells; non-trivial = cell with scale >= 10 KiB / 10 000 elements; distinct by (config kind, debug, shape, field, flavour, scale).",
 		Assumptions: []string{"only the allocation COUNT is judged, as the property says; a change that allocates O(n) bytes in O(1) allocations is not flagged",
